@@ -582,7 +582,21 @@ def gen_par_scripts(tier, seed, variant):
 
 C19_OPS = ("par_", "into_par_iter", "from_par_iter", "spar_", "sinto_par_iter", "tpar_", "tinto_par_iter")
 
+def c19_pareq_probe(run):
+    extra = []
+    ok, exe = H.build_harness("sse2-debug")
+    if ok:
+        rc, out = H.sh([exe, "pareq"], timeout=120)
+        for l in [l for l in out.split("\n") if l.startswith("PAREQ ")][:3]:
+            fz = H.Finding("A-FAIL", "op=[par_eq] " + l.strip(), None, None)
+            fz.replay_hint = "cd /verif/harness && RUSTFLAGS='--cfg hashbrown_verif' cargo run --offline --target-dir target-sse2-debug -- pareq   (prints every disagreeing pair)"
+            extra.append(fz)
+        if rc != 0 or "PAREQSTAT" not in out:
+            extra.append(H.Finding("CRASH", "par_eq probe (hbx pareq) did not complete: " + out[-300:].replace("\n", " "), None, None))
+    return extra
+
 def check_c19(run):
+    run.extra_findings = c19_pareq_probe(run)
     return script_property(
         run, gen_par_scripts,
         relevant=lambda f: f.kind == "CRASH" or (f.kind in ("A-FAIL", "H-FAIL", "B-FAIL") and op_in(f, C19_OPS))
@@ -670,7 +684,7 @@ def check_c16(run):
     return H.finish(run, cov, "proof", assumptions=[cov["partial"]])
 
 HT = lambda f: f.text
-LEAKY = ("different allocator instance", "double drop", "leak", "never dropped", "blocks still allocated", "wrong layout", "unknown block", "already been dropped", "double drops")
+LEAKY = ("zero-sized elements with drop glue", "different allocator instance", "double drop", "leak", "never dropped", "blocks still allocated", "wrong layout", "unknown block", "already been dropped", "double drops")
 MEMORY = ("double drop", "red zone", "invalid layout", "unknown block", "wrong layout", "MISALIGNED", "misaligned reference", "SLOT_OUT_OF_BLOCK", "already been dropped", "two mutable references", "assertion")
 
 def gen_fault_scripts(tier, seed, variant):
@@ -689,6 +703,9 @@ def gen_fault_scripts(tier, seed, variant):
     # the k-th Hash call panics inside an in-place rehash with swaps (every insertion API)
     for i in range(n // 3):
         out.append(gen_map.make_rehash_script(rng, f"fr{seed}_{i}", kind=rng.choice(["map-drop", "map-plain"]), arm="hashpanic_nth"))
+    # HashTable: destructor / predicate panics inside retain, extract_if, clear, drain, entry-insert, clone, drop
+    for i in range(n // 4):
+        out.append(gen_table.make_table_fault_script(rng, f"ft{seed}_{i}"))
     # ... and deterministically with the first and the LAST bucket still to be re-hashed when it panics (maps and tables)
     for i in range(n // 4):
         out.append(gen_map.make_guard_script(rng, f"fg{seed}_{i}", table=(i % 2 == 1)))
@@ -800,9 +817,18 @@ def gen_release_fault_scripts(tier, seed, variant):
                                        arms=["clonepanic_nth", "clonepanic_nth", "hashpanic_nth", "refuse_nth"]))
     return "".join(out)
 
+def gen_zst_token_scripts(tier, seed, variant):
+    """zero-sized elements WITH drop glue and an observable Clone (counted tokens): every way of leaving
+    a HashTable (retain, extract_if, drain, clear, find_entry + remove, drop) and clone"""
+    rng = random.Random(seed + 31)
+    out = [gen_table.make_zst_removal_script(rng, f"zt{seed}_0", "table-zstd")]
+    for i in range(4 if tier == "quick" else 12):
+        out.append(gen_table.make_script(rng, f"zs{seed}_{i}", kind="table-zstd"))
+    return "".join(out)
+
 def check_c03(run):
     return script_property(
-        run, lambda tier, seed, v: gen_map_scripts(tier, seed, v) + gen_table_scripts(tier, seed + 1, v) + gen_clone_scripts(tier, seed + 2, v) + gen_release_fault_scripts(tier, seed + 3, v) + gen_par_scripts(tier, seed + 4, v),
+        run, lambda tier, seed, v: gen_map_scripts(tier, seed, v) + gen_table_scripts(tier, seed + 1, v) + gen_clone_scripts(tier, seed + 2, v) + gen_release_fault_scripts(tier, seed + 3, v) + gen_par_scripts(tier, seed + 4, v) + gen_zst_token_scripts(tier, seed, v),
         relevant=lambda f: f.kind == "CRASH" or (f.kind == "H-FAIL" and any(k in f.text for k in LEAKY)),
         rule="HashMap / HashTable / clone-family histories with drop-tracked elements (every key and value object carries a serial number in a registry) and the ledger allocator: after EVERY operation each object ever created must be stored in a collection, held by the caller, or dropped exactly once; a second drop of a serial, a stored object that was already dropped, a release with a different layout than the request, and anything still alive or allocated after the collections are dropped are findings; leaving routes exercised: remove, overwrite, clear, retain, extract_if, drain (0, some, all consumed), into_iter / into_keys / into_values (0, some, all consumed; also on emptied but still allocated collections), shrink, clone_from into occupied targets, drop; interrupted operations (the k-th Clone or Hash call panics, a refused allocation) must not lose or duplicate an object either; allocator events are also compared in order with the extracted model; the owning iterators are compared step by step with Model/OwnIter.v (yielded elements, destructor and release events in order, incl. fold / for_each consumers that panic part-way and leaked iterators); the parallel owning iterators (into_par_iter, par_drain over maps, sets and tables, incl. short-circuiting consumers) run under the same registry")
 
@@ -836,8 +862,11 @@ def gen_removal_scripts(tier, seed, variant):
     for i in range(n // 2):
         out.append(gen_table.make_removal_script(rng, f"rt{seed}_{i}"))
     # zero-sized and tiny elements through retain / extract_if / drain (deterministic)
-    for i, kind in enumerate(["table-zst", "table-zst64", "table-1", "table-3", "table-17"]):
+    for i, kind in enumerate(["table-zst", "table-zst64", "table-zstd", "table-1", "table-3", "table-17"]):
         out.append(gen_table.make_zst_removal_script(rng, f"rz{seed}_{i}", kind))
+    # a collision chain longer than a group with len() <= group width: extract_if / retain from the first group
+    for i in range(3):
+        out.append(gen_table.make_chain_extract_script(rng, f"rc{seed}_{i}"))
     return "".join(out)
 
 def check_c10(run):
@@ -854,8 +883,8 @@ def gen_eq_scripts(tier, seed, variant):
 
 def check_c11(run):
     return script_property(
-        run, lambda tier, seed, v: gen_clone_scripts(tier, seed, v) + gen_eq_scripts(tier, seed, v),
-        relevant=lambda f: f.kind == "CRASH" or (f.kind in ("A-FAIL", "H-FAIL", "B-FAIL", "C-MISMATCH") and False) or (f.kind in ("A-FAIL", "H-FAIL", "B-FAIL") and (op_in(f, ("o_", "eq")) or any(k in f.text for k in ("clone", "symmetric", "shares an element")))),
+        run, lambda tier, seed, v: gen_clone_scripts(tier, seed, v) + gen_eq_scripts(tier, seed, v) + gen_zst_token_scripts(tier, seed, v),
+        relevant=lambda f: f.kind == "CRASH" or (f.kind in ("A-FAIL", "H-FAIL", "B-FAIL", "C-MISMATCH") and False) or (f.kind in ("A-FAIL", "H-FAIL", "B-FAIL") and (op_in(f, ("o_", "eq", "tclone")) or any(k in f.text for k in ("clone", "symmetric", "shares an element")))),
         rule="HashMap histories with a second map: clone(), clone_from into targets in every state (unallocated, smaller, equal, larger bucket count, with tombstones), swap, ==; the clone must hold equal elements with fresh serial numbers (no object shared), later operations on one map must leave the other's dump unchanged (checked after every step), clone_from must drop every old target element exactly once and free the old block iff the bucket counts differ (events compared with the extracted model), == must equal the mathematical comparison of the abstract contents and be symmetric; differently seeded hashers via a salted BuildHasher",
         nontrivial_keys=("clone_family_same_buckets", "clone_family_target_smaller", "clone_family_target_larger"))
 
@@ -875,6 +904,9 @@ def gen_capacity_scripts(tier, seed, variant):
     # every element kind at every small bucket count, allocation_size read at each stage (deterministic)
     for i, kind in enumerate(["table-1", "table-2", "table-3", "table-6", "table-12", "table-17", "table-18", "table-200", "table-a64", "table-zst", "table-zst64", "table-plain", "table-drop"]):
         out.append(gen_table.make_layout_script(rng, f"kl{seed}_{i}", kind))
+    # tables whose capacity() has fallen to len() because every removal left a marker, then shrink_to_fit / shrink_to
+    for i in range(4):
+        out.append(gen_table.make_tomb_shrink_script(rng, f"kt{seed}_{i}"))
     return "".join(out)
 
 def check_c08(run):
